@@ -308,9 +308,10 @@ class KroneckerProductLinearOperator(LinearOperator):
 
         # return a dense root decomposition if the matrix is small
         if self.shape[-1] <= settings.max_cholesky_size.value():
-            return super().root_inv_decomposition()
+            return super().root_inv_decomposition(method=method)
 
-        root_list = [lt.root_inv_decomposition().root for lt in self.linear_ops]
+        # (like root_decomposition: the requested method applies to the factors)
+        root_list = [lt.root_inv_decomposition(method=method).root for lt in self.linear_ops]
         kronecker_root = KroneckerProductLinearOperator(*root_list)
         return RootLinearOperator(kronecker_root)
 
